@@ -130,3 +130,672 @@ def facts(ctx):
          f"Definition NAME_COM : list N := {asc('COM')}.\nDefinition NAME_RST : list N := {asc('RST')}.\n")
     common.write_if_changed(os.path.join(common.COQ, "Generated", "C12_facts.v"), v)
     ctx.facts = {"names": {int(h, 16): n for h, n in names}, "has_length": hl, "in_entropy": ie}
+    HAS_LENGTH[:] = hl
+
+
+# ------------------------------------------------------------------ encoders (python side; the harness gets these bytes)
+
+PNG_SIG = bytes([137, 80, 78, 71, 13, 10, 26, 10])
+
+
+def png_enc(chunks, trailer=b""):
+    out = bytearray(PNG_SIG)
+    for name, data in chunks:
+        out += struct.pack(">I", len(data)) + name + data + struct.pack(">I", zlib.crc32(name + data) & 0xFFFFFFFF)
+    return bytes(out + trailer)
+
+
+STANDALONE = {0xD8, 0xD9} | set(range(0xD0, 0xD8))
+SCANLIKE = {0xDA} | set(range(0xD0, 0xD8))
+
+
+def jpeg_enc(segs, trailer=b""):
+    out = bytearray(b"\xff\xd8")
+    for s in segs:
+        out += s["fill"] + bytes([0xFF, s["m"]])
+        if s["m"] not in STANDALONE:
+            out += struct.pack(">H", (len(s["p"]) + 2) & 0xFFFF) + s["p"]
+        out += s["e"]
+    return bytes(out + trailer)
+
+
+def seg(m, p=b"", e=b"", fill=b""):
+    return {"m": m, "p": bytes(p), "e": bytes(e), "fill": bytes(fill)}
+
+
+def c2pa_app11(rng, en=b"\x02\x11", z=1, n=40, first=True):
+    body = b"JP" + en + struct.pack(">I", z) + struct.pack(">I", 100) + b"jumb" + struct.pack(">I", 50) + b"jumd" + b"c2pa" + bytes(rng.randrange(256) for _ in range(n))
+    if not first:
+        body = b"JP" + en + struct.pack(">I", z) + struct.pack(">I", 100) + b"jumb" + bytes(rng.randrange(256) for _ in range(n + 4))
+    return seg(0xEB, body)
+
+
+def stuffed(rng, n):
+    out = bytearray()
+    for _ in range(n):
+        b = rng.choice([0, 1, 0x7F, 0xD0, 0xD9, 0xFE, 0xFF, rng.randrange(256)])
+        out.append(b)
+        if b == 0xFF:
+            out.append(0)
+    return bytes(out)
+
+
+def jwf(segs, trailer):
+    """the model's domain (mirrors Model/BoxMapJpeg.v jwf)"""
+    prev_scan = False
+    for s in segs:
+        f = s["fill"]
+        k = len(f.rstrip(b"\xff"))
+        if prev_scan and k:
+            return False
+        if 0xFF in f[:k]:
+            return False
+        if not (1 <= s["m"] <= 254) or len(s["p"]) > 65533:
+            return False
+        if s["m"] in STANDALONE and s["p"]:
+            return False
+        if s["m"] in SCANLIKE:
+            e = s["e"]
+            i = 0
+            while i < len(e):
+                if e[i] == 0xFF:
+                    if i + 1 >= len(e) or e[i + 1] != 0:
+                        return False
+                    i += 2
+                else:
+                    i += 1
+        elif s["e"]:
+            return False
+        if s["m"] == 0xCC and len(s["p"]) % 2:
+            return False
+        prev_scan = s["m"] in SCANLIKE
+    return 0xFF not in trailer
+
+
+HAS_LENGTH = [(0xE0, 0xEF), (0xC0, 0xCF), (0xDA, 0xDA), (0xFE, 0xFE), (0xDB, 0xDB), (0xDD, 0xDD)]   # refreshed by facts()
+
+
+def _is_frame(m):
+    return 0xC0 <= m <= 0xCF and m not in (0xC4, 0xC8, 0xCC)
+
+
+def seg_ok(s):
+    m, p = s["m"], s["p"]
+    if m == 0:
+        return False
+    if m == 0xC4:
+        while len(p) > 17:
+            n = sum(p[1:17])
+            if 17 + n > len(p):
+                return False
+            p = p[17 + n:]
+        return True
+    if _is_frame(m):
+        return len(p) >= 6 and 6 + 3 * p[5] <= len(p)
+    if m == 0xDA:
+        return len(p) >= 1 and 4 + 2 * p[0] <= len(p)
+    if m == 0xDD:
+        return len(p) >= 2
+    return True
+
+
+def _stuffed(e):
+    i = 0
+    while i < len(e):
+        if e[i] == 0xFF:
+            if i + 1 >= len(e) or e[i + 1] != 0:
+                return False
+            i += 2
+        else:
+            i += 1
+    return True
+
+
+def plain_seg(s):
+    m = s["m"]
+    hl = any(a <= m <= b for a, b in HAS_LENGTH)
+    return (not s["fill"] and seg_ok(s) and m != 0xEB and not (0xD0 <= m <= 0xD7) and 1 <= m <= 254
+            and hl == (m not in STANDALONE) and len(s["p"]) <= 65533 and (m not in STANDALONE or not s["p"])
+            and (_stuffed(s["e"]) if m == 0xDA else not s["e"]))
+
+
+def run_seg(en, s):
+    return not s["fill"] and s["m"] == 0xEB and 28 <= len(s["p"]) <= 65533 and not s["e"] and s["p"][2:4] == en
+
+
+def jclean(segs, trailer):
+    """the hypothesis of theorem c12_jpeg_layout (mirrors plain_seg / c2pa_run / no_final_sos in Proofs/BoxMapJpegTiling.v)"""
+    if trailer:
+        return False
+    i = 0
+    while i < len(segs) and plain_seg(segs[i]):
+        i += 1
+    if i < len(segs) and segs[i]["m"] == 0xEB:
+        s0 = segs[i]
+        if len(s0["p"]) < 28:
+            return False
+        en = s0["p"][2:4]
+        if not run_seg(en, s0) or s0["p"][24:28] != b"c2pa":
+            return False
+        i += 1
+        while i < len(segs) and run_seg(en, segs[i]):
+            i += 1
+    if not all(plain_seg(s) for s in segs[i:]):
+        return False
+    return not segs or segs[-1]["m"] != 0xDA
+
+
+# ------------------------------------------------------------------ generators
+
+def rbytes(rng, n):
+    return bytes(rng.randrange(256) for _ in range(n))
+
+
+def gen_png(rng):
+    r = rng.random()
+    names = [b"PLTE", b"IDAT", b"tEXt", b"iTXt", b"gAMA", b"IDAT", b"zTXt", b"C2PA", b"PNGh", b"ab\xc3\xa9", b"\xe2\x82\xac1"]
+    chunks = []
+    has_ihdr = rng.random() < 0.93
+    n_cai = rng.choice([0, 0, 0, 1, 1, 1, 1, 2])
+    if has_ihdr:
+        chunks.append((b"IHDR", rbytes(rng, 13)))
+    for _ in range(rng.randrange(0, 5)):
+        chunks.append((rng.choice(names), rbytes(rng, rng.choice([0, 1, 4, 9, rng.randrange(0, 40)]))))
+    for _ in range(n_cai):
+        pos = rng.choice([0, 1, 1, 1, rng.randrange(0, len(chunks) + 1)])
+        chunks.insert(min(pos, len(chunks)), (b"caBX", rbytes(rng, rng.randrange(0, 60))))
+    if rng.random() < 0.08 and has_ihdr:
+        chunks.insert(rng.randrange(0, len(chunks) + 1), (b"IHDR", rbytes(rng, 13)))
+    if rng.random() < 0.05:
+        chunks.insert(rng.randrange(0, len(chunks) + 1), (rng.choice([b"\xff\xfe\x00\x01", b"\xc0\x80ab", b"\xed\xa0\x80a", b"\xf4\x90\x80\x80", b"ab\xc3("]), rbytes(rng, 3)))
+    end = rng.random() < 0.92
+    if end:
+        chunks.append((b"IEND", b""))
+    trailer = b""
+    if rng.random() < 0.3:
+        trailer = rbytes(rng, rng.choice([1, 2, 7, 12, 25, 40]))
+        if rng.random() < 0.3:
+            trailer = png_enc([(b"tEXt", rbytes(rng, 5)), (b"IEND", b"")])[8:]
+    data = png_enc(chunks, trailer)
+    kind = "structured"
+    if r < 0.18:
+        kind = "mutant"
+        m = rng.random()
+        b = bytearray(data)
+        if m < 0.3 and len(b) > 9:
+            b = b[:rng.randrange(0, len(b))]
+        elif m < 0.5:
+            i = rng.randrange(0, min(len(b), 8))
+            b[i] ^= 1 << rng.randrange(8)
+        elif m < 0.8 and len(b) > 12:
+            # corrupt a length field of some chunk
+            off = 8
+            offs = []
+            while off + 8 <= len(b):
+                offs.append(off)
+                off += 12 + struct.unpack(">I", b[off:off + 4])[0]
+            o = rng.choice(offs)
+            b[o:o + 4] = struct.pack(">I", rng.choice([0, 1, 0xFFFFFFFF, 0x7FFFFFFF, len(b), len(b) - o - 12, len(b) - o - 11, rng.randrange(0, 64)]))
+        else:
+            for _ in range(rng.randrange(1, 4)):
+                b[rng.randrange(len(b))] = rng.randrange(256)
+        data = bytes(b)
+    return {"fmt": "png", "kind": kind, "data": data.hex(), "has_manifest": (n_cai > 0) if kind == "structured" else None,
+            "trailer": len(trailer) if kind == "structured" and end else None}
+
+
+def gen_jpeg(rng):
+    segs = []
+    style = rng.random()
+    clean = style < 0.4
+    if rng.random() < 0.6:
+        segs.append(seg(0xE0, b"JFIF\0" + rbytes(rng, 9) + (rbytes(rng, rng.randrange(0, 6)) if rng.random() < 0.3 else b"")))
+    elif rng.random() < 0.2:
+        segs.append(seg(0xE0, rbytes(rng, rng.randrange(0, 16))))
+    n_c2pa = rng.choice([0, 0, 1, 1, 1, 2, 3])
+    run = []
+    en = rng.choice([b"\x02\x11", b"\x00\x01"])
+    for k in range(n_c2pa):
+        run.append(c2pa_app11(rng, en=en, z=k + 1, n=rng.randrange(0, 30), first=(k == 0)))
+    if not clean and run and rng.random() < 0.25:
+        run.insert(rng.randrange(0, len(run) + 1), seg(0xE1, rbytes(rng, 6)))        # split C2PA run
+    if not clean and run and rng.random() < 0.15:
+        run.append(c2pa_app11(rng, en=b"\x07\x07", z=1, n=5, first=True))              # a second run
+    if rng.random() < 0.3:
+        segs.append(seg(0xE1, b"Exif\0\0" + rbytes(rng, rng.randrange(0, 20))))
+        segs += run
+    else:
+        segs += run
+        if rng.random() < 0.5:
+            segs.append(seg(0xE1, b"http://ns.adobe.com/xap/1.0/\0" + rbytes(rng, 8)))
+    if not clean and rng.random() < 0.25:
+        segs.append(seg(0xEB, rbytes(rng, rng.choice([0, 3, 16]))))                   # short APP11: no entry
+    if not clean and rng.random() < 0.2:
+        segs.append(seg(0xEB, b"JP\x09\x09" + rbytes(rng, rng.choice([13, 20, 24, 30]))))   # other APP11
+    if rng.random() < 0.5:
+        segs.append(seg(rng.choice([0xE2, 0xED, 0xEE, 0xFE]), rbytes(rng, rng.randrange(0, 20))))
+    segs.append(seg(0xDB, rbytes(rng, rng.choice([65, 130, 67, 3]))))
+    if rng.random() < 0.4:
+        segs.append(seg(0xDD, rbytes(rng, rng.choice([2, 2, 2, 4, 1] if not clean else [2, 4]))))
+    ncomp = rng.choice([1, 3])
+    sof = rng.choice([0xC0, 0xC0, 0xC1, 0xC2] + ([] if clean else [0xC3, 0xC9]))
+    segs.append(seg(sof, bytes([8, 0, 16, 0, 16, ncomp]) + rbytes(rng, 3 * ncomp) + (b"" if rng.random() < 0.8 else rbytes(rng, 2))))
+    if rng.random() < 0.85:
+        counts = [rng.choice([0, 0, 1, 2]) for _ in range(16)]
+        tbl = bytes([0]) + bytes(counts) + rbytes(rng, sum(counts))
+        if rng.random() < 0.3:
+            counts2 = [rng.choice([0, 1]) for _ in range(16)]
+            tbl += bytes([0x10]) + bytes(counts2) + rbytes(rng, sum(counts2))
+        if not clean and rng.random() < 0.15:
+            tbl = tbl[:-1] if len(tbl) > 18 else tbl + rbytes(rng, 3)
+        segs.append(seg(0xC4, tbl))
+    if not clean and rng.random() < 0.15:
+        segs.append(seg(0xCC, rbytes(rng, rng.choice([2, 4]))))
+    if not clean and rng.random() < 0.15:
+        segs.append(seg(rng.choice([0xF0, 0xF7, 0xFD]), rbytes(rng, rng.randrange(0, 8))))   # JPGn: has a length for the reader only
+    if not clean and rng.random() < 0.06:
+        segs.append(seg(rng.choice([0x01, 0xC8, 0xDC, 0xBF]), rbytes(rng, 2)))        # markers without a name: error
+    nscan = rng.choice([1, 1, 1, 2])
+    for _ in range(nscan):
+        hdr = bytes([ncomp]) + rbytes(rng, 2 * ncomp) + bytes([0, 63, 0])
+        if not clean and rng.random() < 0.08:
+            hdr = hdr[:rng.randrange(0, len(hdr))]
+        segs.append(seg(0xDA, hdr, stuffed(rng, rng.randrange(0, 40))))
+        nrst = 0 if clean else rng.choice([0, 0, 1, 2, 3])
+        for k in range(nrst):
+            segs.append(seg(0xD0 + (k % 8), b"", stuffed(rng, rng.randrange(0, 12))))
+    if clean or rng.random() < 0.92:
+        segs.append(seg(0xD9))
+    trailer = b""
+    if not clean:
+        # fill bytes between segments
+        prev_scan = False
+        for s in segs:
+            if rng.random() < 0.15:
+                s["fill"] = (b"" if prev_scan else bytes(rng.randrange(255) for _ in range(rng.randrange(0, 4)))) + b"\xff" * rng.randrange(0, 3)
+            prev_scan = s["m"] in SCANLIKE
+        if rng.random() < 0.35:
+            trailer = bytes(rng.randrange(255) for _ in range(rng.choice([1, 2, 7, 25])))
+        if rng.random() < 0.1:
+            segs.append(seg(0xD8))
+            segs.append(seg(0xE1, rbytes(rng, 4)))
+            segs.append(seg(0xD9))
+    data = jpeg_enc(segs, trailer)
+    kind = "structured" if jwf(segs, trailer) else "outside-domain"
+    case = {"fmt": "jpg", "kind": kind, "data": data.hex(), "has_manifest": n_c2pa > 0,
+            "segs": [[s["fill"].hex(), s["m"], s["p"].hex(), s["e"].hex()] for s in segs], "trailer_hex": trailer.hex(),
+            "clean": jclean(segs, trailer)}
+    if rng.random() < 0.12:
+        b = bytearray(data)
+        m = rng.random()
+        if m < 0.4 and len(b) > 4:
+            b = b[:rng.randrange(1, len(b))]
+        elif m < 0.7:
+            for _ in range(rng.randrange(1, 3)):
+                b[rng.randrange(len(b))] = rng.choice([0xFF, 0, 0xD9, 0xDA, rng.randrange(256)])
+        else:
+            i = rng.randrange(2, len(b))
+            b[i:i] = rbytes(rng, rng.randrange(1, 5))
+        case = {"fmt": "jpg", "kind": "mutant", "data": bytes(b).hex(), "has_manifest": None}
+    return case
+
+
+def gen_gif(rng):
+    """small GIF files (header, logical screen descriptor, optional global colour table, extensions, images, trailer)"""
+    out = bytearray(rng.choice([b"GIF89a", b"GIF89a", b"GIF87a"]))
+    gct = rng.random() < 0.6
+    out += struct.pack("<HH", 4, 4) + bytes([(0x80 | 0x01) if gct else 0x00, 0, 0])
+    if gct:
+        out += rbytes(rng, 3 * 4)
+
+    def sub_blocks(n):
+        o = bytearray()
+        for _ in range(n):
+            k = rng.randrange(1, 9)
+            o += bytes([k]) + rbytes(rng, k)
+        return bytes(o + b"\0")
+    has_manifest = rng.random() < 0.5
+    if has_manifest:
+        out += b"\x21\xff\x0bC2PA_GIF\x01\x00\x00" + sub_blocks(rng.randrange(1, 4))
+    for _ in range(rng.randrange(0, 3)):
+        t = rng.random()
+        if t < 0.3:
+            out += b"\x21\xfe" + sub_blocks(rng.randrange(0, 3))                         # comment
+        elif t < 0.6:
+            out += b"\x21\xf9\x04" + rbytes(rng, 4) + b"\0"                             # graphic control
+        else:
+            out += b"\x21\xff\x0bNETSCAPE2.0" + sub_blocks(1)                           # application
+    for _ in range(rng.randrange(1, 3)):
+        lct = rng.random() < 0.3
+        out += b"\x2c" + struct.pack("<HHHH", 0, 0, 4, 4) + bytes([0x80 if lct else 0])
+        if lct:
+            out += rbytes(rng, 3 * 2)
+        out += bytes([2]) + sub_blocks(rng.randrange(1, 3))
+    if rng.random() < 0.95:
+        out += b"\x3b"
+    trailer = rbytes(rng, rng.choice([0, 0, 0, 1, 12, 25]))
+    out += trailer
+    return {"fmt": "gif", "kind": "structured", "data": bytes(out).hex(), "has_manifest": has_manifest, "trailer": len(trailer)}
+
+
+def corpus():
+    p = os.path.join(common.VERIF, "corpus", "C12.jsonl")
+    if not os.path.exists(p):
+        return []
+    return [json.loads(l) for l in open(p) if l.strip()]
+
+
+# ------------------------------------------------------------------ model
+
+IMPORTS = ("From C2PA Require Import Base.Bytes Generated.C12_facts Model.BoxMap Model.BoxMapJpeg.\n"
+           "From Coq Require Import NArith List.\nImport ListNotations.\nOpen Scope N_scope.")
+
+
+def hexbytes(h):
+    return coq_bytes(bytes.fromhex(h))
+
+
+def model_exprs(c):
+    """list of Coq expressions for the case (box map, and locations for PNG)"""
+    if c["fmt"] == "png":
+        b = hexbytes(c["data"])
+        return [f"png_box_map {b}", f"png_locations {b}"]
+    if c["fmt"] == "jpg" and c.get("kind") == "structured":
+        segs = coq_list([f"JS {hexbytes(f)} {m} {hexbytes(p)} {hexbytes(e)}" for f, m, p, e in c["segs"]])
+        return [f"jpeg_box_map {segs} {hexbytes(c['trailer_hex'])}"]
+    return []
+
+
+ERR = {"EIo": "IoError", "EPngSignature": "PngError", "EInvalidAsset": "InvalidAsset", "EEmbedding": "EmbeddingError",
+       "EJumbfNotFound": "JumbfNotFound", "EFuel": "model-fuel"}
+HT = {"Cai": "Cai", "Xmp": "Xmp", "Other": "Other", "OtherExclusion": "OtherExclusion"}
+
+
+def norm_model_map(t):
+    if t == "Panic":
+        return ("panic",)
+    if t[0] == "Err":
+        return ("err", ERR[t[1]])
+    return ("ok", [(bytes(e["ename"]), e["estart"], e["elen"], e["eexcl"] == "true") for e in t[1]])
+
+
+def norm_impl_map(r):
+    if r["r"] == "err":
+        return ("err", r["kind"])
+    if r["r"] == "panic":
+        return ("panic",)
+    return ("ok", [(n[0].encode() if len(n) == 1 else b"|".join(x.encode() for x in n), s, l, bool(x)) for n, s, l, x in r["map"]])
+
+
+def norm_model_loc(t):
+    if t == "Panic":
+        return ("panic",)
+    if t[0] == "Err":
+        return ("err", ERR[t[1]])
+    return ("ok", [(e["loff"], e["llen"], e["ltype"]) for e in t[1]])
+
+
+def norm_impl_loc(r):
+    if r["r"] == "err":
+        return ("err", r["kind"])
+    if r["r"] == "panic":
+        return ("panic",)
+    return ("ok", [tuple(x) for x in r["loc"]])
+
+
+# ------------------------------------------------------------------ oracle: the property text on the implementation's output
+
+def jpeg_c2pa_irregular(data):
+    """input classification (independent of the SDK): the C2PA APP11 segments of a JPEG do not form one contiguous run
+    (a second run with another box instance number, or another segment in between)"""
+    pos, i, idx, runs, cnt, en = 2, 0, [], 0, 0, None
+    while pos + 4 <= len(data):
+        while pos < len(data) and data[pos] != 0xFF:
+            pos += 1
+        while pos < len(data) and data[pos] == 0xFF:
+            pos += 1
+        if pos >= len(data):
+            break
+        m = data[pos]
+        pos += 1
+        if m in STANDALONE:
+            i += 1
+            continue
+        if m == 0xDA or pos + 2 > len(data):
+            break
+        ln = struct.unpack(">H", data[pos:pos + 2])[0]
+        payload = data[pos + 2:pos + ln]
+        pos += max(ln, 2)
+        if m == 0xEB and len(payload) > 16:
+            e = payload[2:4]
+            if cnt > 0 and e == en:
+                cnt += 1
+                idx.append(i)
+            elif payload[24:28] == b"c2pa":
+                runs, cnt, en = runs + 1, 1, e
+                idx.append(i)
+        i += 1
+    return runs >= 2 or (bool(idx) and idx != list(range(idx[0], idx[-1] + 1)))
+
+
+def layout_defects(entries, n, fmt=None):
+    """entries: [(name, start, len, excl)] as returned; n: file length.
+    returns list of (class, detail) — empty when ordered, non-overlapping, inside the file and covering every byte"""
+    out = []
+    starts = [s for _, s, _, _ in entries]
+    if any(starts[i] > starts[i + 1] for i in range(len(starts) - 1)):
+        out.append(("unordered", f"starts {starts[:12]}"))
+    for nm, s, l, _ in entries:
+        if s + l > n:
+            out.append(("outside", f"entry {nm!r} [{s},{s + l}) in a file of {n} bytes"))
+            break
+    se = sorted(entries, key=lambda e: (e[1], e[1] + e[2]))
+    hi = 0
+    for nm, s, l, _ in se:
+        if l > 0 and s < hi:
+            kind = "overlap-rst" if nm.startswith(b"RST") else ("overlap-c2pa" if any(x[0] == b"C2PA" and x[1] < s + l and s < x[1] + x[2] for x in se if x[2] > 0 and (x[0], x[1]) != (nm, s)) else "overlap")
+            out.append((kind, f"entry {nm!r} [{s},{s + l}) overlaps the preceding entries (covered up to {hi})"))
+            break
+        hi = max(hi, s + l)
+    if fmt == "c2pa":
+        return out          # the whole file is the manifest container: nothing outside it to cover
+    cov = bytearray(n + 1)
+    for _, s, l, _ in entries:
+        for p in range(s, min(n, s + l)):
+            cov[p] = 1
+    unc = [p for p in range(n) if not cov[p]]
+    if unc:
+        last_end = max([min(n, s + l) for _, s, l, _ in entries] + [0])
+        if all(p >= last_end for p in unc):
+            out.append(("trailing", f"{len(unc)} bytes after offset {last_end} belong to no entry"))
+        else:
+            inner = [p for p in unc if p < last_end]
+            out.append(("gap", f"{len(inner)} bytes inside the mapped span belong to no entry (first at {inner[0]})"))
+            if len(inner) != len(unc):
+                out.append(("trailing", f"{len(unc) - len(inner)} bytes after offset {last_end} belong to no entry"))
+    return out
+
+
+def loc_defects(locs, n, has_manifest):
+    out = []
+    cai = [(o, l) for o, l, t in locs if t == "Cai"]
+    oth = [(o, l) for o, l, t in locs if t != "Cai"]
+    for o, l in cai:
+        bound = n if has_manifest else n + l       # without a manifest the region describes the placeholder to be inserted
+        if o + l > bound:
+            out.append(("cai-outside", f"Cai region [{o},{o + l}) beyond {bound}"))
+        for o2, l2 in oth:
+            if l > 0 and l2 > 0 and o < o2 + l2 and o2 < o + l:
+                out.append(("cai-overlap", f"Cai region [{o},{o + l}) overlaps [{o2},{o2 + l2})"))
+                break
+    return out
+
+
+# ------------------------------------------------------------------ evaluation
+
+def matcher_input(c, cls, n):
+    mi = {k: v for k, v in c.items() if k not in ("data", "segs")}
+    mi.update(defect=cls, n=n)
+    if c["fmt"] == "jpg" and "data" in c:
+        mi["c2pa_irregular"] = jpeg_c2pa_irregular(bytes.fromhex(c["data"]))
+    return mi
+
+
+def evaluate(ctx, cases, with_model=True):
+    impl = common.run_harness("c12", [dict(op="map", id=c["id"], fmt=c["fmt"], data=c["data"]) if "data" in c else
+                                      dict(op="map", id=c["id"], fmt=c["fmt"], fixture=c["fixture"]) for c in cases])
+    exprs, owner = [], []
+    if with_model:
+        for idx, c in enumerate(cases):
+            if "data" in c and len(c["data"]) <= 2 * 3000:
+                for k, e in enumerate(model_exprs(c)):
+                    exprs.append(e)
+                    owner.append((idx, k))
+    model = {}
+    if exprs:
+        res = common.coq_eval("C12", IMPORTS, exprs, shard_size=60)
+        for (idx, k), t in zip(owner, res):
+            model[(idx, k)] = t
+    stats = {"fmt": {}, "kind": {}, "impl_ok": 0, "impl_err": 0, "defects": {}, "model_compared": 0, "loc_compared": 0, "sizes": {}}
+    distinct = set()
+    for idx, c in enumerate(cases):
+        r = impl[c["id"]]
+        stats["fmt"][c["fmt"]] = stats["fmt"].get(c["fmt"], 0) + 1
+        stats["kind"][c.get("kind", "fixture")] = stats["kind"].get(c.get("kind", "fixture"), 0) + 1
+        if r["r"] in ("panic", "crash"):
+            ctx.report_violation(c, f"implementation panicked: {r.get('msg')}", dict(c, defect="panic"))
+            continue
+        n = r["len"]
+        b = "<64" if n < 64 else "<256" if n < 256 else "<1024" if n < 1024 else ">=1024"
+        stats["sizes"][b] = stats["sizes"].get(b, 0) + 1
+        im = norm_impl_map(r["box"])
+        il = norm_impl_loc(r["locs"])
+        # ---- oracle
+        if im[0] == "ok":
+            stats["impl_ok"] += 1
+            distinct.add((c["fmt"], tuple((e[0], e[2]) for e in im[1])))
+            for cls, detail in layout_defects(im[1], n, c['fmt']):
+                stats["defects"][cls] = stats["defects"].get(cls, 0) + 1
+                mi = matcher_input(c, cls, n)
+                ctx.report_violation(c, f"{c['fmt']} box map: {cls}: {detail}", mi)
+        elif im[0] == "panic":
+            ctx.report_violation(c, "get_box_map panicked", dict(fmt=c["fmt"], defect="panic"))
+        else:
+            stats["impl_err"] += 1
+        if il[0] == "ok":
+            hm = c.get("has_manifest")
+            if hm is None:
+                hm = im[0] == "ok" and not any(e[0] == b"C2PA" and e[3] for e in im[1])
+                if im[0] != "ok":
+                    hm = False
+            for cls, detail in loc_defects(il[1], n, hm):
+                stats["defects"][cls] = stats["defects"].get(cls, 0) + 1
+                ctx.report_violation(c, f"{c['fmt']} object locations: {cls}: {detail}", matcher_input(c, cls, n))
+        elif il[0] == "panic":
+            ctx.report_violation(c, "get_object_locations_from_stream panicked", dict(fmt=c["fmt"], defect="loc-panic", kind=c.get("kind")))
+        # ---- correspondence
+        if (idx, 0) in model:
+            mm = norm_model_map(model[(idx, 0)])
+            stats["model_compared"] += 1
+            if mm != im:
+                ctx.disagreements.append({"case": {k: v for k, v in c.items() if k != "segs"}, "what": "box map",
+                                          "impl": repr(im)[:600], "model": repr(mm)[:600]})
+        if (idx, 1) in model:
+            ml = norm_model_loc(model[(idx, 1)])
+            stats["loc_compared"] += 1
+            if ml != il:
+                ctx.disagreements.append({"case": c, "what": "object locations", "impl": repr(il)[:400], "model": repr(ml)[:400]})
+    return stats, len(distinct)
+
+
+FIXTURES = [("jpg", "IMG_0003.jpg"), ("jpg", "CA.jpg"), ("jpg", "no_manifest.jpg"), ("jpg", "boxhash.jpg"), ("png", "libpng-test.png"),
+            ("png", "sample1.png"), ("gif", "sample1.gif"), ("jxl", "sample1.jxl"), ("c2pa", "cloud_manifest.c2pa")]
+
+
+def e2e_stage(ctx):
+    """F-BOX at the level of the verdict: sign with box hashing, add bytes no entry covers, read"""
+    os.makedirs(common.CASES, exist_ok=True)
+    jobs = [("png", "libpng-test.png"), ("jpg", "IMG_0003.jpg")]
+    sign = [dict(id=i, op="sign", fmt=f, fixture=fx, out=os.path.join(common.CASES, f"c12_signed.{f}")) for i, (f, fx) in enumerate(jobs)]
+    sr = common.run_harness("c12", sign)
+    reads, meta = [], []
+    for j in sign:
+        r = sr[j["id"]]
+        if r["r"] != "ok" or r["box"]["r"] != "ok":
+            raise TieBroken(f"e2e: cannot sign {j['fixture']} with box hashing: {r}")
+        ents = norm_impl_map(r["box"])[1]
+        n = r["len"]
+        base = dict(op="read", fmt=j["fmt"], path=j["out"])
+        reads.append(dict(base)); meta.append((j["fmt"], "unchanged", n))
+        reads.append(dict(base, append="00112233445566778899aabbccddeeff00112233445566778899")); meta.append((j["fmt"], "trailing", n))
+        if j["fmt"] == "jpg":
+            dqt = [e for e in ents if e[0] == b"DQT"]
+            if dqt:
+                reads.append(dict(base, insert=[dqt[0][1], "0011223344"])); meta.append((j["fmt"], "gap", n))
+            sos = [e for e in ents if e[0] == b"SOS"]
+            if sos:
+                reads.append(dict(base, insert=[sos[0][1] + sos[0][2] - 1, "0011223344"])); meta.append((j["fmt"], "inside-sos", n))
+    for i, rd in enumerate(reads):
+        rd["id"] = i
+    rr = common.run_harness("c12", reads)
+    out = []
+    for rd, (fmt, what, n) in zip(reads, meta):
+        r = rr[rd["id"]]
+        rep = r.get("report", {})
+        state = rep.get("state")
+        defects = layout_defects(norm_impl_map(r["box"])[1], r["len"]) if r.get("box", {}).get("r") == "ok" else []
+        out.append({"fmt": fmt, "mutation": what, "state": state, "failure": rep.get("failure"), "defects": [d[0] for d in defects]})
+        case = {"fmt": fmt, "kind": "e2e", "mutation": what, "read": {k: v for k, v in rd.items() if k != "id"}}
+        if what == "unchanged":
+            if state != "Trusted" or "assertion.boxesHash.match" not in rep.get("success", []):
+                raise TieBroken(f"e2e: freshly box-hashed {fmt} does not validate: {rep}")
+        elif what == "inside-sos":
+            if state == "Trusted":
+                ctx.report_violation(case, "bytes added inside a hashed entry left the asset Trusted", dict(fmt=fmt, defect="e2e-covered-change", kind="e2e"))
+        else:
+            unc = [d for d in defects if d[0] in ("trailing", "gap")]
+            if unc and state in ("Trusted", "Valid"):
+                ctx.report_violation(case, f"{fmt}: {what}: bytes covered by no box-map entry were added to a box-hashed asset and it is still {state} ({unc[0][1]})",
+                                     dict(fmt=fmt, defect=what, kind="e2e", state=state))
+    return out
+
+
+def build_cases(ctx, n_png, n_jpg, n_gif):
+    cases = corpus()
+    cases += [gen_png(ctx.rng) for _ in range(n_png)]
+    cases += [gen_jpeg(ctx.rng) for _ in range(n_jpg)]
+    cases += [gen_gif(ctx.rng) for _ in range(n_gif)]
+    cases += [dict(fmt=f, fixture=fx, kind="fixture", has_manifest=None) for f, fx in FIXTURES]
+    for i, c in enumerate(cases):
+        c["id"] = i
+    return cases
+
+
+def run(ctx):
+    if not getattr(ctx, "no_build", False):
+        common.build_harness()
+    if ctx.replay:
+        cases = [ctx.replay["case"]] if "case" in ctx.replay else [d["case"] for d in ctx.replay.get("disagreements", [])]
+        cases = [c for c in cases if c.get("kind") != "e2e"]
+        for i, c in enumerate(cases):
+            c["id"] = i
+    else:
+        q = ctx.quick()
+        cases = build_cases(ctx, 260 if q else 2500, 260 if q else 2500, 60 if q else 400)
+    stats, distinct = evaluate(ctx, cases)
+    e2e = e2e_stage(ctx) if not ctx.replay or any(c.get("kind") == "e2e" for c in [ctx.replay.get("case", {})]) else []
+    ctx.coverage.update({
+        "evaluations": len(cases) + len(e2e), "distinct_nontrivial": distinct,
+        "rule": "corpus + seeded structured PNG / JPEG / GIF files (with and without manifest, restart markers, fill bytes, trailing data, "
+                "split C2PA runs, second images) + byte-level mutants + repository fixtures; non-trivial = box map returned; distinct by (format, names and lengths)",
+        "distribution": stats, "e2e": e2e,
+        "traces_validated_against_impl": stats["model_compared"] + stats["loc_compared"],
+        "samples": [{k: (v if not isinstance(v, str) or len(v) < 80 else v[:80] + "...") for k, v in c.items() if k != "segs"} for c in cases[:2] + cases[len(cases) // 2: len(cases) // 2 + 2]],
+    })
+
+
+def search(ctx):
+    common.build_harness()
+    cases = build_cases(ctx, 3000, 3000, 500)
+    evaluate(ctx, cases, with_model=False)
+    ctx.coverage["search_evaluations"] = len(cases)
